@@ -9,6 +9,8 @@ From TG.Proofs Require Import TreeNavProofs FoldingProofs OutlineProofs OutlineI
 From TG.Model Require AstToCore Pipeline.
 From TG.Proofs Require OutlineTextProofs.
 From TG.Proofs Require Import SymbolOps OutlineKeepProofs.
+From TG.Gen Require Import GenHandlers.
+From TG.Proofs Require GenHandlersEq.
 Import ListNotations.
 Open Scope N_scope.
 
@@ -171,6 +173,29 @@ Check C18_outline_registration_kept : forall ops1 o ops2 S1 S k e0 keyed,
             (e_name e, e_def e, payload_typ (e_payload e), payload_rk (e_payload e)) =
             (e_name e0, e_def e0, payload_typ (e_payload e0), payload_rk (e_payload e0)).
 Print Assumptions C18_outline_registration_kept.
+
+(** ================= The model IS the source =================
+    coq/gen/GenHandlers.v is the rendering of the CURRENT text of handlers/folding_range.rs `exec` and utils.rs
+    `range_excluding_trivia` (tools/translate/t_handlers.py, re-run by every check; rowan's cursor API and the iterator
+    adaptors are the modelled vocabulary coq/model/HandlerApi.v).  For ALL inputs the rendering equals the hand model that the
+    theorems above are about -- so they are theorems about the source text, and an edit of those functions either leaves the
+    translator's subset or breaks this equality. *)
+Theorem C18_model_is_source :
+  (forall c, src_range_excluding_trivia c = range_excluding_trivia (cur_offset c) (fst c)) /\
+  (forall db f, src_folding_exec db f = Some (folding_model (db f))).
+Proof. exact GenHandlersEq.c18_model_is_source. Qed.
+Check C18_model_is_source :
+  (forall c, src_range_excluding_trivia c = range_excluding_trivia (cur_offset c) (fst c)) /\
+  (forall db f, src_folding_exec db f = Some (folding_model (db f))).
+Print Assumptions C18_model_is_source.
+
+(** C18_fold_one_to_one restated over the rendering of the source *)
+Theorem C18_source_fold : forall db f,
+  exists rs, src_folding_exec db f = Some rs /\ Forall2 fold_spec (filter fold_node (descendants (db f))) rs.
+Proof. exact GenHandlersEq.c18_source_fold. Qed.
+Check C18_source_fold : forall db f,
+  exists rs, src_folding_exec db f = Some rs /\ Forall2 fold_spec (filter fold_node (descendants (db f))) rs.
+Print Assumptions C18_source_fold.
 
 (** ================= Source programs: the outline-relevant slice of the indexer (OutlineIndex.oix, hand model of the
     Class / Def / Defset / MultiClass / TemplateArgDecl / FieldDef / FieldLet / ParentClassList arms of index.rs over the typed
